@@ -109,8 +109,12 @@ def run_batches(prop, vseed, tier, n_runs, batch_size, workers, outdir, wall_lim
                 pass
 
     stop_after = int(os.environ.get('DDSIM_STOP_AFTER_FAILURES', '40'))
+    known_ = load_known()
     while pending or running:
-        if pending and stop_after and sum(1 for r_ in results if r_.get('failure') and prop in r_['failure']['props']) >= stop_after:
+        if pending and stop_after and sum(
+                1 for r_ in results
+                if r_.get('failure') and prop in r_['failure']['props']
+                and match_known(prop, r_['failure'], known_) is None) >= stop_after:
             skipped.extend(pending)
             pending = []
         while pending and len(running) < workers:
